@@ -23,6 +23,7 @@ import KavaVerif.Proofs.Earn
 import KavaVerif.Proofs.EarnFix
 import KavaVerif.Proofs.EarnShares
 import KavaVerif.Proofs.Savings
+import KavaVerif.Generated.C07Swap
 set_option linter.unusedSimpArgs false
 set_option linter.unusedVariables false
 
@@ -408,5 +409,15 @@ example : add [(0, 5), (2, 1), (3, 7)] [(2, 4)] = .ok [(0, 5), (2, 5), (3, 7)] :
 example : sub [(0, 5), (2, 5), (3, 7)] [(2, 5)] = .ok [(0, 5), (3, 7)] := by
   simp [sub, negative, add, merge, isSorted, removeZero]
 example : Valid [(0, 5), (2, 5), (3, 7)] := (isValid_iff _).mp (by decide)
+
+/-! ### app wiring (regenerated from app/app.go on every run) -/
+
+/-- "In savings the module account balance always equals the sum of all recorded deposits" presupposes that coins
+    reach the savings module account only through the module's own Deposit: the account must be a blocked
+    address of x/bank, i.e. NOT among the module accounts app.go exempts from the blocked list (the earn module
+    account is exempt by design: its funds sit in the strategies, not in its own balance). -/
+theorem C11_savings_module_account_blocked :
+    "savingstypes.ModuleAccountName" ∉ KV.Gen.C07.unblockedModuleAccounts ∧
+    "savingstypes.ModuleName" ∉ KV.Gen.C07.unblockedModuleAccounts := by decide
 
 end KV.C11
